@@ -2,7 +2,6 @@
 from __future__ import annotations
 
 from collections import OrderedDict
-from decimal import Decimal
 from enum import Enum
 
 from asyncfix import FMsg, FTag
@@ -104,11 +103,7 @@ class FIXContainer:
             if not replace and t in self.tags:
                 raise DuplicatedTagError(f"tag={t} already exists")
 
-            if isinstance(value, float) and "e" in repr(value):
-                # FIX float fields have no exponent notation: 1e-05 -> 0.00001
-                value = format(Decimal(repr(value)), "f")
-            else:
-                value = str(value)
+            value = str(value)
 
         self.tags[t] = value
 
